@@ -479,6 +479,11 @@ def check_owner_transfer(ctx, model):
                     else:
                         res.add(o)
                 ok = bool(res) and all(o.kind == "param" and o.proj and o.proj[-1] in ("owner", "new_owner") for o in res)
+                # ... normalised by Api::addr_validate (an unchecked / merely canonicalisable string can never equal a sender)
+                with v.opaque(r"Api>::addr_(validate|canonicalize)$|Api::addr_(validate|canonicalize)$|Addr::unchecked$"):
+                    raw = v.origins_of_operand(s_.operand, at=(s_.block, s_.idx)) if s_.operand else set()
+                validated = bool(raw) and all(o.kind == "call" and re.search(r"addr_(validate|canonicalize)$", o.a) for o in raw)
+                ok = ok and validated
                 os_ = res
-                ctx.ob("C16-owner-transfer", "%s|owner" % p, ok, "CONFIG.owner := %s (must be the request's owner field)" % sorted(map(repr, os_)), v.where(s_.block))
+                ctx.ob("C16-owner-transfer", "%s|owner" % p, ok, "CONFIG.owner := %s (must be the request's owner field, stored as the result of addr_validate / addr_canonicalize: %s)" % (sorted(map(repr, os_)), validated), v.where(s_.block))
     ctx.floor("C16-owner-transfer", "owner assignments in UpdateConfig handlers", n, 7)
